@@ -30,6 +30,12 @@ type recorder struct {
 	nid   int
 	rep   *vsup.Report
 	muted bool
+	efds  sync.Map // eventfd descriptors of the open pollers (from the p.open / p.close hooks)
+}
+
+func (r *recorder) isEventfd(fd int) bool {
+	_, ok := r.efds.Load(fd)
+	return ok
 }
 
 func newRecorder(path string, rep *vsup.Report) (*recorder, error) {
@@ -127,6 +133,11 @@ func errClass(err error) string {
 func (r *recorder) install() {
 	vhook.SetSink(func(kind, site string, obj any, a, b int, err error) {
 		if kind == "sys" {
+			if site == "p.open" {
+				r.efds.Store(b, true)
+			} else if site == "p.close" {
+				r.efds.Delete(b)
+			}
 			r.emit("Sys", "site", site, "h", r.handle(obj), "fd", a, "n", b, "err", errClass(err), "g", vsup.Goid())
 		} else {
 			r.emit("Hook", "site", site, "h", r.handle(obj), "a", a, "b", b, "g", vsup.Goid())
